@@ -11,8 +11,9 @@ from findings import Findings
 from vlib import is_diagnosed, Machinery
 
 NAMES = {"n1": "a", "n7": "_func07", "n8": "_funct08", "n9": "_functi09", "n17": "_asm_inthandler21", "n40": "_a_very_long_global_symbol_name_of_forty",
-         "p9a": "_io_out8a", "p9b": "_io_out8b", "sub": "_asm_inthandler2"}
-FILES = [None, "a", "sixteen_chars.nas", "eighteen_chars.nas", "nineteen_chars_.nas", "a_source_file_name_of_forty_characters.n"]
+         "p9a": "_io_out8a", "p9b": "_io_out8b", "sub": "_asm_inthandler2", "suf": "_inthandler21"}
+FILES = [None, "a", "sixteen_chars.nas", "eighteen_chars.nas", "nineteen_chars_.nas", "a_source_file_name_of_forty_characters.n",
+         "thirty_six_characters_long_name_.nas", "f" * 4608]
 TEXTS = [0, 1, 3, 4096, 70000]
 
 ASSUME = ["the raw reader lib/coffraw.py only slices the file at the offsets the headers give; interpretation (WellFormed, Matches) is done by TLC on spec/Coff.tla, whose writer model is model-checked (MC_Coff)",
@@ -58,6 +59,9 @@ def build(c, k):
             g += [{"k": "global", "names": [n]} for n in decl]
     body = [{"k": "cfg", "mn": "SECTION", "s": ".text"}]
     used = 0
+    if k % 3 == 0 and body_order and textlen >= 4096:     # a branch to a GLOBAL label before its definition (far enough for the rel32 form)
+        body.append({"k": "br", "mn": "CALL", "tgt": {"t": "l", "nm": body_order[-1], "add": 0}})
+        body.append({"k": "resb", "e": {"o": "n", "v": 40000}})
     for i, n in enumerate(body_order):
         body.append({"k": "label", "nm": n})
         if c["order"] == "alias" and i % 2 == 0 and i + 1 < len(body_order):
